@@ -20,6 +20,7 @@ import (
 	"fmt"
 	"io"
 	"regexp"
+	"slices"
 	"strconv"
 	"strings"
 
@@ -308,8 +309,13 @@ func (f *containerFactory) FromMap(in map[string]interface{}) ContainerBuilder {
 
 func (f *containerFactory) FromProperties(in map[string]interface{}) ContainerBuilder {
 	b := f.Container()
-	for k, v := range in {
-		b.AddValueAt(k, LeafNode(v))
+	keys := make([]string, 0, len(in))
+	for k := range in {
+		keys = append(keys, k)
+	}
+	slices.Sort(keys)
+	for _, k := range keys {
+		b.AddValueAt(k, LeafNode(in[k]))
 	}
 	return b
 }
